@@ -907,13 +907,16 @@ def scenario_programs(rng, reps):
     idx = 0
     for rep in range(reps):
         for name in BINARY_CT + UNARY_OUT:
-            for narrow in (1, 0):
+            # narrow = 2: a ONE-limb destination that cannot even hold log_delta bits (the budget deduction must fail, not saturate)
+            for narrow in (1, 0, 2):
                 for brel in ((-1, 0, 1) if name in BINARY_CT else (0,)):
-                    for drel in (-1, 0, 1):
+                    for drel in ((-1, 0, 1) if narrow != 2 else (0,)):
                         be, q = BACKENDS[idx % 4]
                         idx += 1
                         W = 7 if q == 52 else 9
                         d = rng.range(26, 40) if q == 52 else rng.range(14, 22)
+                        if narrow == 2:
+                            d = 53 if q == 52 else rng.range(18, 24)
                         B = rng.range(150, 200) if q == 52 else rng.range(70, 90)
                         g = rng.range(3, 9)
                         r = rng.range(1, q + 5) if q == 52 else rng.range(1, 20)
@@ -939,7 +942,9 @@ def scenario_programs(rng, reps):
                             nat = ka - r
                         else:
                             nat = ka
-                        if narrow:
+                        if narrow == 2:
+                            size = 1
+                        elif narrow:
                             size = max(1, (nat - 1) // q - rng.below(2))
                         else:
                             size = min(W, nat // q + 1 + rng.below(2))
